@@ -8,7 +8,7 @@ From GV Require Import Base.Ints Gen.Math Gen.Kernel Model.Mirror
   Proofs.MirrorTotal Proofs.MirrorRestart Proofs.MirrorLog
   Proofs.MirrorResumeWit Proofs.MirrorResumeLoad Proofs.MirrorResumeInv Proofs.MirrorResumeStart
   Proofs.MirrorResumeOps Proofs.MirrorResumeOps2 Proofs.MirrorResumeOps3 Proofs.MirrorResumeOps4
-  Proofs.MirrorResume.
+  Proofs.MirrorResumeOps5 Proofs.MirrorResume.
 Import ListNotations.
 Local Open Scope N_scope.
 
@@ -21,15 +21,15 @@ Definition e_s1 : kstate := state_after [e_ph].
 Definition e_s2 : kstate :=
   match xstep e_s1 (XCrash 1 e_pc) with Ok (s, _) => s | Panic _ => e_s1 end.
 
-Example e_ph_wf : wf_op e_ph HandleProposedHeaderAccepted /\ op_covered e_ph.
+Example e_ph_wf : wf_op e_ph HandleProposedHeaderAccepted.
 Proof.
-  split; [|exact I]. split; [vm_compute; reflexivity|]. split; [intros _; vm_compute; reflexivity|].
+  split; [vm_compute; reflexivity|]. split; [intros _; vm_compute; reflexivity|].
   split; [intros t sigs []|]. intros _. split; [vm_compute; reflexivity|discriminate].
 Qed.
 
-Example e_pc_wf : wf_op e_pc HandleVoteProofsAccepted /\ op_covered e_pc.
+Example e_pc_wf : wf_op e_pc HandleVoteProofsAccepted.
 Proof.
-  split; [|exact I]. split; [exact I|]. split; [exact I|]. split; [|exact I].
+  split; [exact I|]. split; [exact I|]. split; [|exact I].
   intros t sigs [E|[]]. inversion E; subst. discriminate.
 Qed.
 
@@ -50,7 +50,7 @@ Example e_s2_reachable :
 Proof.
   split.
   - apply (rg_step 1 ex_vs e_s1 (XCrash 1 e_pc) e_s2 HandleVoteProofsAccepted);
-      [exact e_s1_reachable|split; [exact (proj1 e_pc_wf)|split; [exact I|exact e_cut_clean]]|vm_compute; reflexivity].
+      [exact e_s1_reachable|split; [exact e_pc_wf|exact e_cut_clean]|vm_compute; reflexivity].
   - vm_compute. repeat split; reflexivity.
 Qed.
 
